@@ -108,7 +108,7 @@ def build(ctx, spec, name=None, base_executor=None):
             if c == "callable":
                 cf = b.fns["count%d" % k] = Recorded("count%d" % k, lambda idx: 2)
                 c = cf
-            cur = _with(cur, "throttle", c)
+            cur = _with(cur, "throttle", c, block=L.get("block", False))
         elif t == "timeout":
             cur = _with(cur, "timeout", L.get("timeout", 1e6))
         elif t == "cos":
@@ -163,7 +163,7 @@ def make_poll_fn(mode, k, b):
             key = id(d)
             n = seen.get(key, 0)
             seen[key] = n + 1
-            if mode == "second_call" and n == 0:
+            if mode == "never" or (mode == "second_call" and n == 0):
                 continue
             d.yield_result(("p%d" % k, d.result))
         return None
